@@ -77,7 +77,11 @@ def main(args):
     :param args: the command-line arguments
     """
     source_file = SourceFile(args.filename)
-    source_file.read_file()
+    try:
+        source_file.read_file()
+    except (OSError, UnicodeError) as error:
+        print("Unable to read [{}]: {}".format(args.filename, error))
+        sys.exit(1)
     program = Program()
 
     try:
